@@ -19,6 +19,9 @@
  *
  *   --cfgs "cfg;cfg"   --len <n>   --scripted 0|1   --persistent 0|1   --depth2 0|1
  *   --prop C12|C04|C13|C17   the same enumeration, judged with another property's statement only:
+ *      C01  no failure at all, only LEGAL short transfers: one read(2) or write(2) moves fewer bytes than asked
+ *           for (1, half, all but one) and nothing fails: every operation returns OK, every read is right, and
+ *           after close/kill + reopen everything acknowledged is there
  *      C04  batch atomicity: reads during the run and the contents after close/kill + reopen are the
  *           fold of SOME set of whole batches (which ones is C12's and C02/C03's business)
  *      C13  after every operation every table of the current version exists in the directory; at the end of
@@ -40,7 +43,7 @@ static const char *DB = "/vfs/db";
 
 static kcfg_t cfg;
 static int do_persistent = 0, do_depth2 = 0;
-static int prop_mode = 12;   /* 12, 4, 13, 17 */
+static int prop_mode = 12;   /* 12, 1, 4, 13, 17 */
 static vcall_t *calllog;
 static long ncalllog;
 static uint64_t n_hist, n_sites, n_runs, n_reopens, n_fired, n_notfired, n_err_status_ops, n_open_failed_in_run;
@@ -105,7 +108,7 @@ check_reads(khist_t *h, frun_t *r, int opidx) {
     ldb_slice_t key = ldb_slice(kv_keys[k], kv_keylen[k]), val;
     int fired0 = vfs_cur->fault.fired;
     int rc = ldb_get(h->db, &key, &val, NULL);
-    int faulted = vfs_cur->fault.fired != fired0;
+    int faulted = vfs_cur->fault.fired != fired0 && prop_mode != 1;
     have[k] = 1;
     obs[k] = 0;
     if (rc == LDB_OK) {
@@ -203,6 +206,11 @@ fault_body(void *arg) {
       fprintf(stderr, "op %d kind %c status %d db=%p fired=%d ncalls=%ld\n", i, r->h->ops[i].kind, rc, (void *)h.db, vfs_cur->fault.fired, vfs_cur->ncalls);
     if (rc != LDB_OK)
       n_err_status_ops++;
+    if (rc != LDB_OK && prop_mode == 1 && !r->learn) {
+      char m[200];
+      snprintf(m, sizeof(m), "op %d returns status %d (%s) although no system call failed (one transfer was short)", i, rc, ldb_strerror(rc));
+      fail(r, "error-on-legal-short-transfer", m);
+    }
     if (h.db)
       check_reads(&h, r, i);
     if (h.db && prop_mode == 13) {
@@ -477,6 +485,22 @@ explore_history(const hist_t *h) {
      * (lseek is half of the pread emulation of this build): metadata probes are not fault sites */
     if (kind == C_STAT || kind == C_ACCESS || kind == C_FSTAT || kind == C_FCNTL || kind == C_OPENDIR || kind == C_RMDIR)
       continue;
+    if (prop_mode == 1) {
+      long shorts[3], ns = 0, q;
+      if ((kind != C_READ && kind != C_WRITE) || calllog[k].len < 2)
+        continue;
+      if (drv.shard == 0) { n_sites++; kind_sites[kind]++; }
+      shorts[ns++] = 1;
+      if (calllog[k].len > 2) shorts[ns++] = (long)calllog[k].len - 1;
+      if (calllog[k].len > 4) shorts[ns++] = (long)calllog[k].len / 2;
+      for (paranoid = 0; paranoid < 2 && !stop_now; paranoid++)
+        for (q = 0; q < ns && !stop_now; q++) {
+          fplan_t p;
+          p.at = k; p.err = 0; p.persistent = 0; p.short_n = shorts[q]; p.at2 = -1; p.err2 = 0;
+          try_plan(h, &p, paranoid);
+        }
+      continue;
+    }
     if (kind == C_WRITE || kind == C_MKDIR || kind == C_LINK) errs = errs_space;
     if (kind == C_OPEN) errs = errs_open;
     if (kind == C_RENAME || kind == C_UNLINK) errs = errs_name;
@@ -609,7 +633,7 @@ main(int argc, char **argv) {
   cfgs = drv_opt("cfgs", "B1");
   {
     const char *pm = drv_opt("prop", "C12");
-    prop_mode = !strcmp(pm, "C04") ? 4 : !strcmp(pm, "C13") ? 13 : !strcmp(pm, "C17") ? 17 : 12;
+    prop_mode = !strcmp(pm, "C01") ? 1 : !strcmp(pm, "C04") ? 4 : !strcmp(pm, "C13") ? 13 : !strcmp(pm, "C17") ? 17 : 12;
   }
   add_op("P0.1");
   add_op("P1.1!");
